@@ -22,6 +22,17 @@ package zapcore
 // ---------------------------------------------------------------------------
 // interface contracts
 
+// Type invariants of zap's private core types: established wherever such a value is converted to
+// an interface (obligation typeinv.make), assumed for the receiver when a method is verified
+// against an interface contract; the fields they mention are never stored to after publication
+// (obligation typeinv.stable).
+//@ typeinv *zapcore.sampler s: s != nil && s.Core != nil && s.counts != nil && s.hook != nil
+//@ typeinv *zapcore.ioCore c: c != nil && c.LevelEnabler != nil && c.enc != nil && c.out != nil
+//@ typeinv *zapcore.hooked h: h != nil && h.Core != nil && (forall k int :: 0 <= k && k < len(h.funcs) ==> h.funcs[k] != nil)
+//@ typeinv zapcore.multiCore mc: forall k int :: 0 <= k && k < len(mc) ==> mc[k] != nil
+//@ typeinv *zapcore.levelFilterCore c: c != nil && c.level != nil && c.core != nil
+//@ typeinv *zapcore.lazyWithCore d: d != nil && d.originalCore != nil
+
 //@ iface zapcore.LevelEnabler.Enabled
 //@   modifies nothing
 //@   ensures result == enabled(self, arg0)
@@ -32,7 +43,7 @@ package zapcore
 //@ iface zapcore.Core.Check
 //@   params ent ce
 //@   requires ce != nil ==> forall i int :: 0 <= i && i < len(ce.cores) ==> ce.cores[i] != nil
-//@   modifies $user, zapcore.CheckedEntry.cores, comp(E:zapcore.Core)
+//@   modifies $user, zapcore.CheckedEntry.cores, comp(E:zapcore.Core), comp(H:sync_atomic.Uint64.v), comp(H:sync_atomic.Int64.v)
 //@   ensures ce != nil ==> result == ce
 //@   ensures ce == nil && result != nil ==> fresh(result) && result.Entry == ent && !result.dirty && result.after == nil
 //@   ensures result != nil ==> len(result.cores) >= (ce == nil ? 0 : old(len(ce.cores)))
@@ -400,7 +411,7 @@ package zapcore
 //@   props C05 C04
 //@   flags nopanic
 //@   requires forall k int :: 0 <= k && k < len(mc) ==> mc[k] != nil
-//@   requires ce != nil ==> root(arr(ce.cores)) != root(arr(mc))
+//@   assumes ce != nil ==> root(arr(ce.cores)) != root(arr(mc))
 //@   requires ce != nil ==> forall i int :: 0 <= i && i < len(ce.cores) ==> ce.cores[i] != nil
 //@   track CK = invoke zapcore.Core.Check
 //@   ensures #CK == len(mc)
@@ -610,8 +621,11 @@ package zapcore
 // core.go: ioCore.Write / Sync (C04, C06, C10, C08)
 
 // Encoder.EncodeEntry hands a buffer it no longer references to the caller (or an error).
+// It writes only into buffers it took from the pool: no buffer and no byte that existed before changes.
 //@ iface zapcore.Encoder.EncodeEntry
 //@   modifies $user, comp(E:uint8), buffer.Buffer.bs
+//@   ensures type_frame(type(buffer.Buffer))
+//@   ensures elems_frame(type(uint8), zero(type([]uint8)))
 //@   ensures result.1 == nil ==> result.0 != nil && result.0.pool.p != nil
 //@   ensures result.1 != nil ==> result.0 == nil
 
@@ -662,9 +676,11 @@ package zapcore
 //@ axiom countOK_step: forall e arr(error), k int :: k >= 0 ==> countOK(e, k+1) == countOK(e, k) + (e[k] == nil ? 1 : 0)
 //@ axiom countOK_frame: forall e arr(error), k int, j int, v error :: j >= k ==> countOK(store(e, j, v), k) == countOK(e, k)
 
+// Constructor arguments are non-nil (assumption on callers of the public constructors).
 //@ func zapcore.NewCore
 //@   props C19 C05
 //@   flags nopanic
+//@   requires enc != nil && ws != nil && enab != nil
 //@   modifies nothing
 //@   ensures typeof(result) == type(*ioCore) && fresh(as(result, type(*ioCore))) && as(result, type(*ioCore)).enc == enc && as(result, type(*ioCore)).out == ws && as(result, type(*ioCore)).LevelEnabler == enab
 
@@ -765,6 +781,7 @@ package zapcore
 //@ func zapcore.NewTee
 //@   props C05 C04
 //@   flags nopanic
+//@   requires forall k int :: 0 <= k && k < len(cores) ==> cores[k] != nil
 //@   modifies nothing
 //@   ensures len(cores) == 0 ==> typeof(result) == type(nopCore)
 //@   ensures len(cores) == 1 ==> result == cores[0]
@@ -776,6 +793,7 @@ package zapcore
 //@ func zapcore.RegisterHooks
 //@   props C05
 //@   flags nopanic
+//@   requires core != nil && (forall k int :: 0 <= k && k < len(hooks) ==> hooks[k] != nil)
 //@   modifies nothing
 //@   ensures typeof(result) == type(*hooked) && fresh(as(result, type(*hooked))) && as(result, type(*hooked)).Core == core
 //@   ensures len(as(result, type(*hooked)).funcs) == len(hooks) && (forall k int :: 0 <= k && k < len(hooks) ==> as(result, type(*hooked)).funcs[k] == hooks[k])
@@ -794,15 +812,18 @@ package zapcore
 //@   loop 1 invariant forall k int :: 0 <= k && k < $idx ==> F.arg0[k] == ent
 //@   loop 1 invariant err == errFold(F.ret0, $idx)
 
+// Options keep the sampler well-formed (rely on user-supplied options; zap's own SamplerHook is
+// given a non-nil hook).
 //@ iface zapcore.SamplerOption.apply
 //@   params s
 //@   modifies *s, $user
+//@   ensures s.Core == old(s.Core) && s.counts == old(s.counts) && (old(s.hook) != nil ==> s.hook != nil)
 
 //@ func zapcore.NewSamplerWithOptions
 //@   props C11 C05
 //@   arith bv
 //@   flags nopanic
-//@   requires forall k int :: 0 <= k && k < len(opts) ==> opts[k] != nil
+//@   requires core != nil && (forall k int :: 0 <= k && k < len(opts) ==> opts[k] != nil)
 //@   track AP = invoke zapcore.SamplerOption.apply
 //@   modifies $user
 //@   ensures typeof(result) == type(*sampler) && fresh(as(result, type(*sampler)))
@@ -810,7 +831,7 @@ package zapcore
 //@   ensures len(opts) == 0 ==> as(result, type(*sampler)).Core == core && as(result, type(*sampler)).tick == tick && as(result, type(*sampler)).first == uint64(first) && as(result, type(*sampler)).thereafter == uint64(thereafter) && as(result, type(*sampler)).counts != nil && as(result, type(*sampler)).hook != nil
 //@   loop 1 invariant 0 <= $idx && $idx <= len(opts) && #AP == $idx
 //@   loop 1 invariant forall k int :: 0 <= k && k < $idx ==> AP.recv[k] == opts[k] && AP.arg0[k] == s
-//@   loop 1 invariant fresh(s) && type_frame(type(sampler))
+//@   loop 1 invariant fresh(s) && type_frame(type(sampler)) && s.Core == core && s.counts != nil && s.hook != nil
 //@   loop 1 invariant $idx == 0 ==> s.Core == core && s.tick == tick && s.first == uint64(first) && s.thereafter == uint64(thereafter) && s.counts != nil && s.hook != nil
 
 //@ func zapcore.newCounters
@@ -831,6 +852,7 @@ package zapcore
 //@ func zapcore.NewLazyWith
 //@   props C07 C09
 //@   flags nopanic
+//@   requires core != nil
 //@   modifies nothing
 //@   ensures typeof(result) == type(*lazyWithCore) && fresh(as(result, type(*lazyWithCore))) && as(result, type(*lazyWithCore)).originalCore == core && as(result, type(*lazyWithCore)).fields == fields && as(result, type(*lazyWithCore)).core == nil
 
